@@ -3,13 +3,18 @@
 Part "connector" drives ``tornado.tcpclient._Connector`` directly (as tornado/test/tcpclient_test.py does) on the
 virtual loop: addrinfo list of 1-4 entries over two families - entries may repeat the same (family, address),
 adjacent or not, as resolvers do - each address optionally failing synchronously
-(its connect future is already failed when returned), happy-eyeballs timeout 0.3/1.0, optional connect
-timeout, and an op-list schedule: ok(i) / fail(i) complete the i-th in-flight attempt, advance(dt) moves the
+(its connect future is already failed when returned, or the connect callable itself RAISES OSError as
+TCPClient._create_stream does), happy-eyeballs timeout 0.3/1.0, optional connect
+timeout, and an op-list schedule: ok(i) / fail(i) complete the i-th in-flight attempt, batch((e1, e2)) completes two
+attempts before the loop runs again (their callbacks run in ONE loop iteration, in completion order), advance(dt) moves the
 clock (firing the happy-eyeballs timer and the connect timeout in deadline order).  A flag decides whether
 ``close()`` on an in-flight fake stream fails its connect future at once (what IOStream does) or leaves it to
 the schedule (late arrivals).  Part "connector_enum" enumerates every schedule of <= 4 (quick) / 5 (thorough)
 events over all address lists of <= 2 (quick) / 3 (thorough) entries up to renaming, duplicated entries included
-(quick additionally: every 3-entry list with a duplicate, schedules <= 3 events).
+(quick additionally: every 3-entry list with a duplicate, schedules <= 3 events).  Part "connector_enum_raise": 4 distinct
+addresses over two families, exactly one with a raising connect callable, every schedule of <= 2 (quick) / 3 (thorough)
+events out of 6 single events + 4 batches.  "No attempt is started after resolution" is checked inside the connect
+callable itself, so it also covers everything that runs during the final drain to quiescence.
 Duplicated entries: the statement fixes only that the connect settles, so an implementation may attempt a duplicate
 again or drop it; the oracle allows an "all failed" error once every DISTINCT address was attempted and every attempt
 failed, requires it once additionally nothing is in flight, and never allows more attempts than listings.  After every op, at quiescence:
@@ -54,6 +59,14 @@ Sensitivity (quick tier, seed 1, scratch copies, one mutant of tornado/tcpclient
      (minimal: [a, a], every attempt fails).  Found by independent mutation testing; the first version of this check
      never listed an address twice, so duplicate entries were added to the generators and to the enumeration.
      Soundness control: split() de-duplicating AND remaining = len(dict.fromkeys(addrinfo)) stays quiet.
+  M10 try_connect: after a synchronously raising connect() the retry is deferred with io_loop.add_callback(self.try_connect,
+     addrs) instead of running inline            -> caught  C10.attempt_started_after_resolution
+     (minimal: [v4 a, v4 b(raises), v4 c, v6 d]; advance 0.3; batch(fail a, ok d): d resolves in the same iteration, then the
+     deferred retry starts c).  Found by independent mutation testing; earlier versions had raising creation faults only
+     in the tcpclient part and could not complete two attempts in one loop iteration -> "raise" address mode, batch op and
+     the connector_enum_raise sweep were added.  (last_error is now tracked by a done-callback registered before the
+     connector's own, i.e. in the order the connector processes failures.)
+  M11 try_connect: connect() call unguarded again (pre-484fc54 behaviour)      -> caught
 """
 import asyncio
 import errno
@@ -106,21 +119,26 @@ AF4, AF6 = real_socket.AF_INET, real_socket.AF_INET6
 FAM = {4: AF4, 6: AF6}
 
 # =========================================================================== part 1: _Connector
+_ev_s = st.tuples(st.sampled_from(["ok", "fail", "fail"]), st.integers(0, 3))
 conn_op_s = st.one_of(
     st.tuples(st.just("ok"), st.integers(0, 3)),
     st.tuples(st.just("fail"), st.integers(0, 3)),
     st.tuples(st.just("fail"), st.integers(0, 3)),
     st.tuples(st.just("advance"), st.sampled_from([0.1, 0.2, 0.3, 0.5, 1.0, 3.0])),
 )
+# connector part only: two attempts complete before the loop runs again (their callbacks run in one iteration)
+conn_batch_s = st.tuples(st.just("batch"), st.tuples(_ev_s, _ev_s))
 # (family, fails synchronously, slot): two entries with the same family and slot are the SAME address listed twice
 # (resolvers do return duplicates, e.g. one per socktype/protocol or from several sources)
-addr_s = st.tuples(st.sampled_from([4, 6]), st.sampled_from([False, False, False, True]), st.integers(0, 2))
+# sync: False = asynchronous attempt; True = the connect future is already failed when returned; "raise" = the connect
+# callable itself raises OSError (what TCPClient._create_stream does when socket()/bind()/IOStream() fail)
+addr_s = st.tuples(st.sampled_from([4, 6]), st.sampled_from([False, False, False, False, True, "raise"]), st.integers(0, 2))
 conn_case_s = st.fixed_dictionaries({
     "addrs": st.lists(addr_s, min_size=1, max_size=4),
     "he": st.sampled_from([0.3, 0.3, 1.0]),
     "ct": st.sampled_from([None, None, 0.3, 0.5, 2.0]),
     "close_fails": st.booleans(),
-    "ops": st.lists(conn_op_s, max_size=14),
+    "ops": st.lists(st.one_of(conn_op_s, conn_op_s, conn_op_s, conn_batch_s), max_size=14),
 })
 
 
@@ -176,19 +194,43 @@ def run_connector(ctx, case):
             if sum(1 for a in attempts if a.name == addr) >= multiplicity.get(addr, 0):
                 fail("C10.address_attempted_more_often_than_listed", {"addr": addr})
             attempts.append(s)
+
+            def settled(f, s=s):
+                # registered before the connector's own callback, so it runs immediately before on_connect_done for this
+                # attempt: failures are ordered exactly as the connector processes them (a synchronous failure of the
+                # next address happens inside that processing, i.e. later)
+                if s.state == "failed" and not holder["conn"].future.done():
+                    holder["last_error"] = s.error
+
+            s.future.add_done_callback(settled)
             if sync_fail[addr]:
                 s.state = "failed"
                 s.error = OSError(errno.ENETUNREACH, "sync failure " + addr)
                 s.future.set_exception(s.error)
                 holder["last_error"] = s.error
                 info["labels"].add("sync_failure")
+                if sync_fail[addr] == "raise":
+                    s.future.exception()  # nobody else will look at this future
+                    info["labels"].add("sync_raise")
+                    if attempts[:-1] and holder.get("started"):
+                        info["labels"].add("sync_raise_from_callback")
+                    raise s.error
             return s, s.future
 
         t0 = loop.time()
         conn = _Connector(list(addrs), connect)
         holder["conn"] = conn
         done_count = [0]
-        fut = conn.start(timeout=case["he"], connect_timeout=(t0 + case["ct"]) if case["ct"] is not None else None)
+        try:
+            fut = conn.start(timeout=case["he"], connect_timeout=(t0 + case["ct"]) if case["ct"] is not None else None)
+        except OSError as e:
+            # EITHER: a connect callable raising for the very first address may propagate out of start()
+            # (that is how TCPClient.connect reported it before try_connect guarded the call); nothing was opened.
+            if e is not (attempts[0].error if attempts else None) or len(attempts) != 1:
+                raise
+            info["labels"].add("start_raised")
+            return 0
+        holder["started"] = True
         fut.add_done_callback(lambda f: done_count.__setitem__(0, done_count[0] + 1))
         deadline = t0 + case["ct"] if case["ct"] is not None else None
         he_at = t0 + case["he"]
@@ -268,28 +310,47 @@ def run_connector(ctx, case):
             if fails:
                 break
             kind = op[0]
-            if kind in ("ok", "fail"):
-                fl = inflight()
-                if not fl:
-                    info["labels"].add("noop")
-                    continue
-                a = fl[op[1] % len(fl)]
+
+            def deliver(kind, a):
+                # callbacks of completed futures run in completion order, so within a batch the model is updated in
+                # the same order; "resolved" here means: by an earlier event of this batch or before
+                resolved = fut.done() or state["success"] is not None
                 if kind == "ok":
                     a.state = "ok"
-                    if not fut.done() and state["success"] is None:
+                    if not resolved:
                         state["success"] = a
-                    elif fut.done():
+                    else:
                         info["labels"].add("late_success")
                     a.future.set_result(a)
                 else:
                     a.state = "failed"
                     a.error = OSError(errno.ECONNREFUSED, "refused " + a.name)
-                    if not fut.done():
-                        holder["last_error"] = a.error
+                    if not resolved:
                         info["events_before_resolution"] += 1
                         info["labels"].add("failure_before_resolution")
                         state["he_consumed"] = True  # the first asynchronous failure starts the other family at once
                     a.future.set_exception(a.error)
+
+            if kind in ("ok", "fail"):
+                fl = inflight()
+                if not fl:
+                    info["labels"].add("noop")
+                    continue
+                deliver(kind, fl[op[1] % len(fl)])
+            elif kind == "batch":
+                fl = inflight()
+                if not fl:
+                    info["labels"].add("noop")
+                    continue
+                hit = []
+                for k2, i2 in op[1]:
+                    a = fl[i2 % len(fl)]
+                    if a in hit:
+                        continue
+                    hit.append(a)
+                    deliver(k2, a)
+                if len(hit) == 2:
+                    info["labels"].add("two_completions_in_one_iteration")
             else:
                 before = loop.time()
                 await vtime.advance(op[1])
@@ -314,7 +375,6 @@ def run_connector(ctx, case):
                 a.state = "failed"
                 a.error = OSError(errno.ECONNRESET, "drain " + a.name)
                 if not fut.done():
-                    holder["last_error"] = a.error
                     state["he_consumed"] = True
                 a.future.set_exception(a.error)
                 await vtime.settle()
@@ -380,6 +440,26 @@ def addr_patterns(n):
             for slot in range(0, (max(used) + 1 if used else 0) + 1):
                 yield from extend(prefix + [(fams[i], slot)])
         yield from extend([])
+
+
+BATCH_EVENTS = [("batch", (("fail", 0), ("ok", 1))), ("batch", (("ok", 1), ("fail", 0))),
+                ("batch", (("fail", 1), ("ok", 0))), ("batch", (("fail", 0), ("fail", 1)))]
+
+
+def enum_raise_cases(max_len):
+    """4 distinct addresses over two families, exactly one of them with a raising connect callable, every schedule of
+    <= max_len events including pairs of completions delivered in one loop iteration."""
+    events = ENUM_EVENTS + BATCH_EVENTS
+    for fams in itertools.product([4, 6], repeat=4):
+        if fams[0] == 6:
+            continue
+        for r in range(4):
+            addrs = [(f, "raise" if i == r else False, i) for i, f in enumerate(fams)]
+            for ct in (None, 1.0):
+                for close_fails in (True, False):
+                    for L in range(0, max_len + 1):
+                        for seq in itertools.product(events, repeat=L):
+                            yield {"addrs": addrs, "he": 0.3, "ct": ct, "close_fails": close_fails, "ops": list(seq)}
 
 
 def enum_cases(max_addrs, max_len, extra_dup_len=None):
@@ -675,7 +755,8 @@ def run_tcpclient(ctx, case):
     ctx.note(case, labels, nontrivial=len(addrinfo) >= 2 and info["events"] >= 1)
 
 
-PARTS = {"connector": run_connector, "connector_enum": run_connector, "tcpclient": run_tcpclient}
+PARTS = {"connector": run_connector, "connector_enum": run_connector, "connector_enum_raise": run_connector,
+         "tcpclient": run_tcpclient}
 
 
 def main(ctx):
@@ -685,5 +766,6 @@ def main(ctx):
     else:
         cases = enum_cases(2, 4, extra_dup_len=3)
     ctx.enumerate(cases, run_connector, name="connector_enum")
+    ctx.enumerate(enum_raise_cases(3 if ctx.thorough else 2), run_connector, name="connector_enum_raise")
     ctx.explore(conn_case_s, run_connector, ctx.n(1200, 150000), name="connector")
     ctx.explore(tcp_case_s, run_tcpclient, ctx.n(800, 60000), name="tcpclient")
